@@ -27,6 +27,8 @@ type settingsCase struct {
 	Conv  []string `json:"converter"`
 	Meth  []string `json:"method"`
 	Meth2 []string `json:"sibling,omitempty"` // parsed on the same converter BEFORE Meth (sibling independence)
+	// the functions named by extend / default / map | FUNC exist (real path): such lines are no-ops for the inheritable settings
+	LoaderOK bool `json:"functions_exist,omitempty"`
 }
 
 func classifySettingErr(msg string) string {
@@ -239,7 +241,7 @@ func badRegexes(sc *settingsCase) []string {
 func settingsReq(id int, sc *settingsCase) *sx.Node {
 	return sx.H("resolve", sx.I(id), sx.H("vars", sx.B(sc.Vars)), sx.H("iface", sx.S("Converter")), sx.H("cwd", sx.S(c12Cwd)),
 		sx.H("procwd", sx.S("/proc/wd")), sx.H("pkg", sx.S(c12Pkg)), sx.H("pkgname", sx.S(c12PkgName)), sx.H("varfile", sx.S("conv.gen.go")),
-		sx.Strs("rxbad", badRegexes(sc)), sx.Strs("cli", sc.CLI), sx.Strs("conv", sc.Conv), sx.Strs("meth", sc.Meth))
+		sx.Strs("rxbad", badRegexes(sc)), sx.Strs("cli", sc.CLI), sx.Strs("conv", sc.Conv), sx.Strs("meth", sc.Meth), sx.H("loaderok", sx.B(sc.LoaderOK)))
 }
 
 var boolKeys = []string{"wrapErrors", "ignoreUnexported", "update:ignoreZeroValueField", "update:ignoreZeroValueField:basic",
@@ -308,7 +310,7 @@ func genSettingLine(r *rng.R, level int) string {
 }
 
 func runC12(e *env) error {
-	e.rep.Rule = "cases = (cli lines, converter lines, method lines[, sibling lines]); exhaustive {absent,bare,yes,no}^3 for every inheritable boolean and {absent,v1,v2}^3 for valued settings, each also with a sibling method carrying the opposite value; every converter-only line at method level and vice versa; seeded random line sequences with malformed values. Implementation: config.parseConverterLines/parseMethodLine (verif hook) and, for the exhaustive tables and a sample, the real path comments.ParseDocs + config.Parse on a scratch module. non-trivial = at least one line at some level; distinct = canonical request"
+	e.rep.Rule = "cases = (cli lines, converter lines, method lines[, sibling lines]); exhaustive {absent,bare,yes,no}^3 for every inheritable boolean and {absent,v1,v2}^3 for valued settings, each also with a sibling method carrying the opposite value; every converter-only line at method level and vice versa; seeded random line sequences with malformed values. Implementation: config.parseConverterLines/parseMethodLine (verif hook) and, for the exhaustive tables and a sample, the real path comments.ParseDocs + config.Parse on a scratch module, there also with extend / default / map | FUNC lines naming existing functions before or after the setting (they must not change any inheritable setting). non-trivial = at least one line at some level; distinct = canonical request"
 	var cases []*settingsCase
 
 	// exhaustive tables
@@ -518,10 +520,12 @@ func c12RealPath(e *env) error {
 		iface, meth string
 		key         string
 		b, c        int
+		// explicit lines (with function-loading lines) when they differ from variant(key, b) / variant(key, c)
+		convLines, methLines []string
 	}
 	var entries []entry
 	var src strings.Builder
-	src.WriteString("package p\n\ntype In struct{ A int }\ntype Out struct{ A int }\n\n")
+	src.WriteString("package p\n\ntype In struct{ A int }\ntype Out struct{ A int }\n\nfunc NewOut() Out { return Out{} }\nfunc MapA(v int) int { return v }\nfunc ExtX(v uint8) uint16 { return uint16(v) }\n\n")
 	n := 0
 	for _, key := range keys {
 		for b := 0; b < 4; b++ {
@@ -538,7 +542,40 @@ func c12RealPath(e *env) error {
 					src.WriteString("\t// goverter:" + l + "\n")
 				}
 				src.WriteString("\t" + meth + "(source In) Out\n")
-				entries = append(entries, entry{iface, meth, key, b, c})
+				entries = append(entries, entry{iface: iface, meth: meth, key: key, b: b, c: c})
+			}
+			src.WriteString("}\n\n")
+		}
+		// the same with lines that load functions (extend on the converter, default / map | FUNC on the method), written
+		// before or after the setting: they must not change any inheritable setting
+		for b := 0; b < 4; b++ {
+			n++
+			iface := fmt.Sprintf("C%d", n)
+			convLines := append([]string{}, variant(key, b)...)
+			if b%2 == 0 {
+				convLines = append([]string{"extend ExtX"}, convLines...)
+			} else {
+				convLines = append(convLines, "extend ExtX")
+			}
+			src.WriteString("// goverter:converter\n")
+			for _, l := range convLines {
+				src.WriteString("// goverter:" + l + "\n")
+			}
+			src.WriteString("type " + iface + " interface {\n")
+			for c := 0; c < 4; c++ {
+				meth := fmt.Sprintf("M%d", c)
+				loader := []string{"default NewOut", "map A | MapA"}[c%2]
+				mlines := append([]string{}, variant(key, c)...)
+				if c < 2 {
+					mlines = append([]string{loader}, mlines...)
+				} else {
+					mlines = append(mlines, loader)
+				}
+				for _, l := range mlines {
+					src.WriteString("\t// goverter:" + l + "\n")
+				}
+				src.WriteString("\t" + meth + "(source In) Out\n")
+				entries = append(entries, entry{iface: iface, meth: meth, key: key, b: b, c: c, convLines: convLines, methLines: mlines})
 			}
 			src.WriteString("}\n\n")
 		}
@@ -582,6 +619,9 @@ func c12RealPath(e *env) error {
 				return fmt.Errorf("c12 real path: method %s.%s missing", en.iface, en.meth)
 			}
 			sc := &settingsCase{CLI: cli, Conv: append([]string{"converter"}, variant(en.key, en.b)...), Meth: variant(en.key, en.c)}
+			if en.methLines != nil {
+				sc = &settingsCase{CLI: cli, Conv: append([]string{"converter"}, en.convLines...), Meth: en.methLines, LoaderOK: true}
+			}
 			reqs = append(reqs, settingsReq(i, sc))
 			impl = append(impl, commonToSx(&m.Common))
 			descr = append(descr, map[string]any{"case": sc, "path": "comments.ParseDocs+config.Parse", "interface": en.iface, "method": en.meth})
